@@ -378,7 +378,13 @@ FenParseChecks(e) ==
   {<<"no_panic", ~("panic" \in DOMAIN e.res)>>,
    <<"parse_format_parse_stable",
        e.res.ok => (e.res.text2 = FenWrite(PosOfJson(e.res.pos)) /\ e.res.pos2.ok /\ e.res.pos2.pos = e.res.pos)>>,
-   <<"canonical_text_accepted_as_read", rd.ok => (e.res.ok /\ PosOfJson(e.res.pos) = rd.pos)>>}
+   <<"canonical_text_accepted_as_read", rd.ok => (e.res.ok /\ PosOfJson(e.res.pos) = rd.pos)>>,
+   \* (how lenient the reader is on other text, and which error it reports, is transcribed in ImplFenRead and
+   \*  compared as a note)
+   <<"x_fen_reader_as_transcribed",
+       ("panic" \in DOMAIN e.res) \/
+       LET im == ImplFenRead(e.text) IN
+         im.ok = e.res.ok /\ (im.ok => im.pos = PosOfJson(e.res.pos)) /\ (~im.ok => im.err = e.res.err)>>}
 
 SanChecks(e) ==
   LET pos == PosOfJson(e.pos)
